@@ -24,6 +24,10 @@ CLAIMED = {
    text="Theorems C07_*: for every modelled component (witness/gate primitives, evaluated output, selection, range check of any width, decomposition, truncation, logic) the emitted rows (selectors, wiring, public-input rows), the number of allocated witnesses and the returned witness indices are functions of the call's static parameters and of the shape of the state only; shape independence is closed under sequencing (C07_sequence). The model is tied to the real Composer on every run; totality (no panic for arbitrary field values, debug assertions and overflow checks on) and value-independence of the layout are checked on the real code for every component x width x value class.",
    technique="Coq proof (erasure of values from the layout functions) + exhaustive-width differential correspondence + panic/layout sweep on a checked build",
    design="5/C07"),
+ "C19": dict(
+   text="Theorems: the radix-2 transform equals the DFT for every size and every primitive root (C19_fft_rec_is_dft); the domain generators of all sizes 2^1..2^32 are primitive roots (C19_domain_roots); the forward and coset FFT of a coefficient vector of ANY length equal direct evaluation on the subgroup / coset (C19_fft_is_evaluation, C19_coset_fft_is_evaluation; inputs longer than the domain are reduced mod X^n-1 - true of the code after fix F5); the inverse transform is the scaled DFT at the inverse root; for every worker-thread count the split butterfly equals the serial one (C19_parallel_butterfly_serial); add/sub/mul/scale/trim act on evaluations as ring operations and Ruffini division satisfies p = (X-z)q + p(z). The executable model is compared with the real kernels (through cfg-guarded wrappers) on all sizes, lengths, pools 1..17 at 2^12, zero/trailing-zero vectors and points inside/outside the domain on every run. Not mechanised: ifft o fft = id (orthogonality sum), Lagrange interpolation identity, rayon combinators = sequential meaning.",
+   technique="Coq proof (Cooley-Tukey by induction, list fusion; butterfly chunking) + differential correspondence of kernels vs extracted definitions",
+   design="5/C19, 6/F5-F6"),
  "C08": dict(
    text="Machine-checked theorems (Props/C08.v) state, for every selector tuple, wiring and assignment, the exact relation each arithmetic/equality/boolean/selection component enforces, uniqueness of returned witnesses, completeness of honest values and locality of arithmetic blocks inside any satisfied system; the Gallina composer model they are about is compared on every run with the real Composer (gates, public-input rows, witness values) on generated programs, and the real snapshots are probed with perturbed assignments evaluated by the proved-sound row evaluator.",
    technique="Coq proof over a Gallina model of the composer + differential correspondence (L3 snapshot tie) + exactness probe on real layouts",
